@@ -1,6 +1,7 @@
 package e1
 
 import (
+	"bytes"
 	"fmt"
 	"strings"
 	"testing"
@@ -141,8 +142,10 @@ func TestC10FullState(t *testing.T) {
 								}
 								// both nodes have already served a snapshot to a third node before the other side's gossip arrives
 								// (whatever a node caches for its snapshots must not go stale when it merges)
+								var earlySnap, earlyCopy []byte
 								if (lossA+lossB+mode)%2 == 1 || vk.Thorough() {
-									a.st.Distributor().LocalState(false)
+									earlySnap = a.st.Distributor().LocalState(false)
+									earlyCopy = append([]byte{}, earlySnap...)
 									b.st.Distributor().LocalState(false)
 									desc["snapshot_served_before_remote_changes"] = true
 								}
@@ -181,6 +184,11 @@ func TestC10FullState(t *testing.T) {
 								}
 								check := func(from, to *dnode, Kfrom []dEntry, Kto *[]dEntry, label string) bool {
 									snap := from.st.Distributor().LocalState(false)
+									// a snapshot already handed out (the peer may still be reading it) is not touched by assembling the next one
+									if earlySnap != nil && !bytes.Equal(earlySnap, earlyCopy) {
+										rep.Violate(vk.Violation{Sig: "c10-earlier-snapshot-overwritten", Msg: fmt.Sprintf("%v: the bytes of a snapshot A handed out earlier changed when a later snapshot was assembled", desc), Replay: desc})
+										return false
+									}
 									fresh := newDNode("F", 9, 0)
 									fresh.st.Distributor().MergeRemoteState(snap, true)
 									if got, want := fresh.list().String(), from.list().String(); got != want {
